@@ -236,6 +236,22 @@ Theorem C10_server_step_pass :
     KD (fst r4) s' /\ (exists tl, evs = ac_events (snd r4) ++ tl) /\ AL s'.
 Proof. exact server_step_pass. Qed.
 
+(* a whole step: what is established at the pass and has been silent for active_timeout_ms (this step's input
+   included) is reported among the step's events and not established afterwards; what is still established after
+   the step heard its peer less than active_timeout_ms ago *)
+Theorem C10_server_step_active_timeout :
+  forall s LA vnow inbox nonces s' evs sends rest,
+  WF s -> AInv s LA -> AL s -> server_step s vnow inbox nonces = Ok (s', evs, sends, rest) ->
+  let now := vnow - sv_t0 s in
+  let LA' := la_frames inbox LA now in
+  exists s3, AInv s3 LA' /\ AL s3 /\
+    forall j, sv_is_active s3 j = true ->
+      let addr := so_addr (sv_obj_get s3 j) in
+      (LA' addr + ato s <= now -> In (EvError addr 0) evs /\ sv_is_active s' j = false) /\
+      (sv_is_active s' j = true -> now < LA' addr + ato s).
+Proof. exact server_step_active_timeout. Qed.
+Print Assumptions C10_server_step_active_timeout.
+
 (* non-vacuity (active_timeout_ms = 3000): SYN at server clock 50, ACK at 100, a silent step at 1000, a sync frame
    at 2500: last heard 2500, deadline 5500; the step at 5499 reports nothing, the step at 5500 reports the timeout *)
 Definition ex_aops : list sv_op :=
@@ -256,3 +272,4 @@ Check C10_server_active_deadline_history.
 Check C10_server_active_timeout_rule.
 Check C10_server_active_listed_history.
 Check C10_server_step_pass.
+Check C10_server_step_active_timeout.
